@@ -60,3 +60,9 @@ package v1beta1
 //@ requires rollout != nil
 //@ ensures result == realPartitionSpec(rollout)
 //@ pure
+
+//@ func (*RolloutStrategy).IsCanaryStragegy
+//@ props C02 C09 C10
+//@ requires r != nil && nonEmpty(r)
+//@ ensures result == (r.BlueGreen == nil)
+//@ pure
